@@ -126,8 +126,6 @@ def build_scope(sc, sid):
     row("")
     row('import "m/d"')
     row("")
-    # a permanent directive that matches nothing: every file of the package has an @ignore of its own
-    row("// @ignore ZZZ9")
     slotrow("D1")
     row("func fn1(p *d.T, s d.S) {")
     slotrow("S11", "\t")
@@ -142,6 +140,9 @@ def build_scope(sc, sid):
     slotrow("E1", "\t")
     row("}", None, "TD1")
     row("")
+    # a permanent directive that matches nothing, in front of a later declaration of the first file: every file of the
+    # package has an @ignore of its own, and the first file's last directive belongs to its third declaration
+    row("// @ignore ZZZ9")
     slotrow("D2")
     row(fmt(decl, 15), "a2", "TD2")
     row("")
@@ -155,8 +156,13 @@ def build_scope(sc, sid):
     f2 = []
     if "G0" in slots:
         f2.append(comment)
-    f2 += ["package u", "", 'import "m/d"', "", "func fn4(p *d.T, s d.S) {"]
-    f2.append("\t" + fmt(one, 17))
+    f2 += ["package u", "", 'import "m/d"', ""]
+    if "D4" in slots:
+        f2.append(comment)
+    f2.append("func fn4(p *d.T, s d.S) {")
+    if "S41" in slots:
+        f2.append("\t" + comment)
+    f2.append("\t" + fmt(one, 17) + ((" " + comment) if "T41" in slots else ""))
     pos["b1"] = ("u/f2.go", len(f2))
     if kind == "CTOR03":
         f2.append("\t_ = v17")
